@@ -9,6 +9,7 @@ import (
 	"github.com/hneemann/parser2/listMap"
 	"math"
 	"sort"
+	"sync/atomic"
 )
 
 // NewListConvert creates a list containing the given elements if the elements
@@ -76,6 +77,8 @@ type List struct {
 	itemsPresent bool
 	iterable     ListProducer
 	size         int
+	// appended is set if the spare capacity of items is used by a list that was created by Append
+	appended atomic.Bool
 }
 
 func (l *List) ToMap() (Map, bool) {
@@ -244,14 +247,15 @@ func (l *List) Append(st funcGen.Stack[Value]) (*List, error) {
 	if err != nil {
 		return nil, err
 	}
-	newList := append(l.items, st.Get(1))
-	// Guarantee a copy operation the next time append is called on this
-	// list, which is only a rare special case, as the new list is usually
-	// appended to.
-	if len(l.items) != cap(l.items) {
-		l.items = l.items[:len(l.items):len(l.items)]
+	items := l.items
+	// The spare capacity of items can only be used once. Guarantee a copy operation
+	// the next time append is called on this list, which is only a rare special
+	// case, as the new list is usually appended to. This list itself is not
+	// modified, so it is safe to append to the same list from several goroutines.
+	if len(items) != cap(items) && !l.appended.CompareAndSwap(false, true) {
+		items = items[:len(items):len(items)]
 	}
-	return NewList(newList...), nil
+	return NewList(append(items, st.Get(1))...), nil
 }
 
 func (l *List) SizeIfKnown() (int, bool) {
